@@ -63,6 +63,19 @@ def rows_for(r, chrom, genes, txs, ce3, th, force=None):
     return out
 
 
+def pinned_worlds():
+    """Inputs kept from earlier findings (regressions of repaired defects): [(reference, small variants in gene coordinates)]
+    1: fixed 7579f49 - 28-nt circle of two exons on the minus strand; SNV-21-A-G turns M into V in one pass and lies, two passes
+       later, in the residue right after the cleavage site ending DVPCMVLWK (reported VSHAWCFGK + DVPCMVLWK, one loop with and
+       one without the variant)"""
+    ref = refgen.Reference()
+    ref.chroms['chr1'] = 'CATGTTCCAAAGCAGACCACCATGCATGGGACATCTTTTGCTGCATACCCAAGGACTATAGGTAT'
+    g = refgen.Gene('ENSG00001.1', 'chr1', 3, 54, -1, biotype='lncRNA')
+    t = refgen.Tx('ENST00001.1', g.id, -1, [(5, 14), (19, 38), (41, 50)], False)
+    g.txs.append(t.id); ref.genes[g.id] = g; ref.txs[t.id] = t
+    return [(ref, [(t.id, 20, 'A', 'G'), (t.id, 21, 'T', 'G'), (t.id, 44, 'T', 'A'), (t.id, 46, 'G', 'T')])]
+
+
 def check_c17(tier, rep=None, only=None):
     """only: None (C17: the parser clauses), 'circ_peptides_complete' (reported by C01) or 'circ_peptides_sound' (by C02)"""
     rep = rep or report.Report('C17', tier)
@@ -78,13 +91,17 @@ def check_c17(tier, rep=None, only=None):
     r = env.rng('c17')
     n = 36 if tier == 'quick' else 600
     jl, meta = [], []
-    for i in range(n):
+    pinned = pinned_worlds()
+    for i in range(n + len(pinned)):
         tiny = None
-        if r.random() < 0.45:
+        ref = None
+        if i >= n:
+            ref = pinned[i - n][0]
+        elif r.random() < 0.45:
             # a tiny exon that is circularised, with a start codon that small variants will hit (see below)
             ref, tt_, atg = refgen.tiny_circle_reference(r)
             tiny = (tt_.id, atg) if ref is not None else None
-        if tiny is None:
+        if tiny is None and ref is None:
             ref = refgen.random_reference(r, n_genes=r.randrange(1, 3), coding_p=0.6, max_exons=4, aa_len=(10, 18), nc_len=(30, 70), flank_p=0.6)
         d = os.path.join(work, f'c{i}')
         paths = ref.write(d)
@@ -95,7 +112,8 @@ def check_c17(tier, rep=None, only=None):
         sr = r.choice([(-2, 0), (0, 0), (-1, 1)]); er = r.choice([(-100, 5), (0, 0), (-1, 3)])
         # the tiny exon on its own is always reported with enough support
         mid = [list(e) for e in txs[0]['exons'][1:2]] if tiny else None
-        rows = rows_for(r, ref.chroms['chr1'], genes, txs, ce3, th, force=(lambda b: b == mid) if tiny else None)
+        rows = rows_for(r, ref.chroms['chr1'], genes, txs, ce3, th,
+                        force=(lambda b: True) if i >= n else (lambda b: b == mid) if tiny else None)
         if not rows:
             continue
         inp = os.path.join(d, 'circ.txt'); open(inp, 'w').write('\n'.join(x['line'] for x in rows) + '\n')
@@ -110,7 +128,8 @@ def check_c17(tier, rep=None, only=None):
             if th['min_circ_score'] is not None:
                 argv += ['--min-circ-score', th['min_circ_score']]
         jl.append(dict(argv=argv, read_gvf=outp, circ_seq=paths))
-        meta.append(dict(ref=ref, rows=rows, sr=sr, er=er, ce3=ce3, th=th, argv=[str(a) for a in argv], tiny=tiny))
+        meta.append(dict(ref=ref, rows=rows, sr=sr, er=er, ce3=ce3, th=th, argv=[str(a) for a in argv], tiny=tiny,
+                         pinned=pinned[i - n][1] if i >= n else None))
     nj = env.NCPU
     res = jobs.run_jobs('run_parser_case.py', [dict(jobs=jl[k::nj]) for k in range(nj)], timeout=3000)
     flat = [None] * len(jl)
@@ -131,6 +150,14 @@ def check_c17(tier, rep=None, only=None):
         for tt in m['ref'].txs.values():
             if rv.random() < 0.7:
                 small += cvgen.random_small_variants(rv, m['ref'], tt, rv.randrange(1, 4), kinds=('SNV', 'SNV', 'INS', 'DEL'))
+        if m.get('pinned'):
+            small = []
+            for tid_, gp, rf_, alt_ in m['pinned']:
+                tt = m['ref'].txs[tid_]; sq = tt.seq(m['ref'].chroms['chr1'])
+                gobj_ = m['ref'].genes[tt.gene]
+                tp = next(k for k in range(len(sq)) if cvgen.gene_pos(m['ref'], tt, k) == gp)
+                assert sq[tp] == rf_
+                small.append(cvgen.snv_at(m['ref'], tt, sq, tp, alt_))
         if m.get('tiny'):
             # variants that destroy the designed start codon of the tiny circle: the deletion of its A, a substitution of one of
             # its bases
